@@ -1122,6 +1122,7 @@ def wiring():
     import collections
     base = collections.Counter(re.sub(r"#\d+$", "", site) for site, _ in rows)
     named, seen = [], collections.Counter()
+    rows.sort(key=lambda r_: (re.sub(r"#\d+$", "", r_[0]), json.dumps(r_[1])))       # duplicates are numbered by content, not by position in the source
     for site, args in rows:
         b = re.sub(r"#\d+$", "", site)
         if base[b] > 1:
